@@ -64,6 +64,13 @@ def gen(rng, n):
             for nm in moved:
                 if nm.endswith('.trashinfo'):
                     extra.append(['f', '/elsewhere/files/' + nm[:-len('.trashinfo')], 'look-alike'])
+        if rng.random() < 0.2:
+            # what other implementations keep next to files/ and info/: the spec's directorysizes cache, gvfs' expunged/ (here also as
+            # a link to a directory elsewhere), a stray file - none of it is the purge's business
+            t0 = argv_td[1].rstrip('/') if argv_td and not argv_td[1].startswith('/lnk/') else lay.home_trash
+            extra += [['f', t0 + '/directorysizes', '4096 1700000000 via\n'], ['f', t0 + '/stray.txt', 'stray']]
+            extra += ([['d', t0 + '/expunged', 0o700], ['f', t0 + '/expunged/123456', 'half deleted'], ['d', t0 + '/expunged/dir1', 0o700], ['f', t0 + '/expunged/dir1/x', 'x']]
+                      if rng.random() < 0.6 else [['l', t0 + '/expunged', '/canary/dir']])
         cmd = rng.choice(['empty', 'empty', 'rm'])
         step = {'cmd': cmd, 'argv': [], 'listdir': rng.choice(['sorted', 'reverse', rng.randint(1, 99)])}
         if cmd == 'empty':
